@@ -313,6 +313,12 @@ def gen_configs(shape):
                                  'sta': {'default': {'a': 3, 'b': False}}}))
     if name in ('GD', 'GF'):
         cfgs.append(('dtprops', {'value': {'unit': 'K', 'min': -10.0, 'max': 500.0}}))
+    if name == 'GM':
+        # MEMBER properties of container-typed parameters narrowed by the configuration (frappy forwards datatype properties
+        # an array does not have itself to its members, through nested arrays too)
+        cfgs.append(('members-narrowed', {'ad': {'min': 1.0, 'max': 10.0}, 'ai': {'min': 2, 'max': 5},
+                                          'asc': {'min': -2.0, 'max': 2.0}, 'ast': {'maxchars': 2},
+                                          'aad': {'min': 1.0, 'max': 10.0}, 'aai': {'max': 4}}))
     if name == 'GK':
         # datatype properties of parameters with read methods narrowed by the configuration
         cfgs.append(('narrowed', {'kr': {'max': 4}, 'krq': {'max': 2.5}}))
@@ -765,8 +771,17 @@ class Checker:
         if pobj is None:
             pobj = type('NoParam', (), {'value': None})()
         cands = V.valid(spec, 'wire') + V.bad(spec, 'wire')
-        if spec[0] == 'struct':
+        if spec[0] in ('struct', 'array', 'tuple'):
+            # containers: also valid containers with one member replaced from the member's bad / boundary catalogue
             cands += [x for x, n in V.cands(spec, 'wire', 1) if n]
+        class_spec = info['rec']['spec'] if info else None
+        if class_spec is not None and class_spec != spec:
+            # the configuration changed the datatype the class declares: everything valid for the class-level type (values
+            # between the narrowed and the class-level range, at every depth) is offered as well
+            cands += V.valid(class_spec, 'wire')
+            if class_spec[0] in ('struct', 'array', 'tuple'):
+                cands += [x for x, n in V.cands(class_spec, 'wire', 1) if n]
+            part.extra['parameters_changed_with_class_level_payloads'] += 1
         seen = set()
         first_accept = True
         for x in cands:
